@@ -467,7 +467,7 @@ func C13(tier string) int {
 			}
 		}
 	}
-	run.Rule = fmt.Sprintf("scenarios: recipient lists of 1..%d entries over {a,b} (%d lists, duplicates included) x every sequence of status calls with at most one call too many / for a recipient not in the list (the k-th call carries its own code and text 'status-k', every third is plain success) x every split of the calls into before/after the message is read x return {nil, error, panic, error-without-reading} x {DATA, BDAT one chunk, BDAT two chunks} + a backend without per-recipient support. For every scenario the schedule explorer (testing/synctest) enumerates the orders of: backend steps (enter, each SetStatus, each Read, return), the handler's reply writes, and the client's segments - ALL interleavings for lists of <=%d recipients, deviation bound %d above. states = scenarios; transitions = scheduling decisions; traces validated = executions on the real server. Lists beginning with b are preceded by a recipient the backend refuses at RCPT time, and every scenario is followed directly by a (chunked) transaction with the recipient list of the first, every recipient with a status of its own, and then by a (chunked) transaction b, <refused>, a, a. Oracle: exactly one reply per accepted RCPT, in order, '<rcpt>' prefix, k-th status of an address for its k-th occurrence, otherwise the return value (421 after a panic); never a deadlock (runtime-detected) and a following NOOP is in step; contract-breaking scripts only need to stay deadlock-free and well-formed.", maxR, len(lists), fullUpTo, bound)
+	run.Rule = fmt.Sprintf("scenarios: recipient lists of 1..%d entries over {a,b} (%d lists, duplicates included) x every sequence of status calls with at most one call too many / for a recipient not in the list (the k-th call carries its own code and text 'status-k', every third is plain success) x every split of the calls into before/after the message is read x return {nil, error, panic, error-without-reading} x {DATA, BDAT one chunk, BDAT two chunks} + a backend without per-recipient support. For every scenario the schedule explorer (testing/synctest) enumerates the orders of: backend steps (enter, each SetStatus, each Read, return), the handler's reply writes, and the client's segments - ALL interleavings for lists of <=%d recipients, deviation bound %d above. states = scenarios; transitions = scheduling decisions; traces validated = executions on the real server. Lists beginning with b are preceded by a recipient the backend refuses at RCPT time, and every scenario is followed directly by a (chunked) transaction with the recipient list of the first, every recipient with a status of its own, and then by a (chunked) transaction b, <refused>, a, a. Plus: a chunked transfer abandoned (RSET / LHLO) while its delivery is slow to return, followed by a chunked transfer to the same recipients - the orders of the old delivery's steps, the new delivery's steps, reply writes and client segments (deviation-bounded): the second transfer's replies carry its own statuses. Oracle: exactly one reply per accepted RCPT, in order, '<rcpt>' prefix, k-th status of an address for its k-th occurrence, otherwise the return value (421 after a panic); never a deadlock (runtime-detected) and a following NOOP is in step; contract-breaking scripts only need to stay deadlock-free and well-formed.", maxR, len(lists), fullUpTo, bound)
 	run.Assumptions = []string{"SetStatus after LMTPData has returned is not generated (the interface forbids it)", "a panicking plain backend may be answered by one 421 and a closed connection"}
 	h.ParallelFor(len(cases), func(i int) {
 		if run.Expired() {
@@ -501,6 +501,10 @@ func C13(tier string) int {
 			run.Sample("scenario", 5, map[string]interface{}{"case": c, "executions": st.Executions, "max_depth": st.MaxDepth})
 		}
 	})
+	// a chunked transfer abandoned while its delivery is slow to return, and the chunked transfer behind it: every order
+	// (deviation bound) of the old delivery's steps, the new delivery's status calls and reads, the reply writes and
+	// the client's segments
+	c13AbortFamily(run, bound+1)
 	for _, n := range []int{2, 255, 256, 300, 1000} {
 		for _, via := range []string{"data", "bdat"} {
 			for _, plan := range []string{"return-value", "plain"} {
@@ -576,4 +580,159 @@ func c13ThirdTransaction(desc string, c C13Case, wire []byte) *h.Finding {
 		}
 	}
 	return nil
+}
+
+// ---- an aborted chunked transfer whose delivery is slow to return, and the transfer behind it ---------------------------
+
+type C13AbortCase struct {
+	Abort    string   `json:"abort"` // RSET | LHLO c2.example | MAIL FROM:<ok@x.example>
+	Plain    bool     `json:"plain"` // backend without per-recipient support
+	// Panics: the first delivery panics when its reader fails (the abort), and the server's ErrorLog - application code -
+	// is a scheduling point: the recovery may still be busy reporting while the connection goes on
+	Panics   bool     `json:"panics,omitempty"`
+	Schedule []string `json:"schedule,omitempty"`
+}
+
+type c13AbortWorld struct {
+	c      C13AbortCase
+	be     *h.Backend
+	log    *h.LogBuf
+	client *h.End
+	segs   [][]byte
+	next   int
+	wire   []byte
+}
+
+func (w *c13AbortWorld) Start(x *h.Exec) {
+	c := w.c
+	w.be = &h.Backend{LMTPSess: !c.Plain}
+	ra, rb := c13Addr('a'), c13Addr('b')
+	w.be.Plan = func(idx int) h.DataPlan {
+		if idx == 0 {
+			return h.DataPlan{Max: -1, Panic: c.Panics, KeepErr: c.Panics} // reads until its reader fails, returns that error (or panics)
+		}
+		p := h.DataPlan{Max: -1}
+		if !c.Plain {
+			p.Status = []h.StatusCall{{Rcpt: ra, Err: nil}, {Rcpt: rb, Err: &smtp.SMTPError{Code: 550, EnhancedCode: smtp.EnhancedCode{5, 8, 1}, Message: "second-b"}, AfterRead: true}}
+		}
+		return p
+	}
+	armed := false
+	w.be.Gate = func(step string) {
+		if armed {
+			x.Point("be:" + step)
+		}
+	}
+	w.log = &h.LogBuf{}
+	if c.Panics {
+		w.log.Gate = func() {
+			if armed {
+				// (the name sorts behind every other gate: by default the logger is the slowest actor, and opening it
+				// earlier is ONE deviation wherever that happens)
+				x.Point("~log:write")
+			}
+		}
+	}
+	srv := h.Config{LMTP: true}.NewServer(w.be, w.log)
+	var server *h.End
+	w.client, server = h.NewDuplex()
+	x.Filter = func(name string) bool { return armed }
+	go srv.VerifServeConn(&h.GatedEnd{End: server, X: x, Name: "srv"}, nil)
+	w.client.Write([]byte(fmt.Sprintf("LHLO c.example\r\nMAIL FROM:<ok@a.example>\r\nRCPT TO:<%s>\r\nRCPT TO:<%s>\r\n", ra, rb)))
+	h.Wait()
+	w.wire = append(w.wire, w.client.In.Drain()...)
+	w.segs = [][]byte{[]byte("BDAT 5\r\nhello"), []byte(c.Abort + "\r\n"),
+		[]byte(fmt.Sprintf("MAIL FROM:<ok@a2.example>\r\nRCPT TO:<%s>\r\nRCPT TO:<%s>\r\n", ra, rb)), []byte("BDAT 7 LAST\r\nsecond\n"), []byte("NOOP\r\n")}
+	armed = true
+}
+
+func (w *c13AbortWorld) Events() []h.SchedEvent {
+	if w.next < len(w.segs) && w.client.Out.Pending() == 0 {
+		k := w.next
+		return []h.SchedEvent{{Name: fmt.Sprintf("client:seg%d", k), Do: func() {
+			w.next++
+			w.client.Write(w.segs[k])
+		}}}
+	}
+	return nil
+}
+
+func (w *c13AbortWorld) Finish(x *h.Exec) *h.Finding {
+	x.Drain()
+	h.Wait()
+	w.wire = append(w.wire, w.client.In.Drain()...)
+	w.client.Out.End(io.EOF)
+	h.Wait()
+	c := w.c
+	desc := fmt.Sprintf("LMTP, chunked transfer abandoned by %q while its delivery is slow to return (panics when aborted: %t), then a chunked message to the same recipients (plain backend=%t), schedule=%v", c.Abort, c.Panics, c.Plain, x.Schedule)
+	if a := w.be.FirstAnomaly(); a != "" {
+		return h.F("c13-backend-anomaly", "%s: %s", desc, a)
+	}
+	if !c.Panics && strings.Contains(w.log.String(), "panic") {
+		return h.F("c13-recovered-panic", "%s: recovered panic: %s", desc, firstLogLine(w.log.String()))
+	}
+	rs, err := ref.ParseReplies(w.wire)
+	if err != nil {
+		return h.F("c13-bad-wire", "%s: %v", desc, err)
+	}
+	// 220 250 250 250 250 | 250 (chunk) | abort reply | MAIL RCPT RCPT | two finals | NOOP
+	nAbort := 1
+	skipMail := strings.HasPrefix(c.Abort, "MAIL") // a MAIL inside the open transfer is refused; the transfer goes on: not used here
+	_ = skipMail
+	want := 5 + 1 + nAbort + 3 + 2 + 1
+	if len(rs) != want {
+		return h.F("c13-abort-reply-count", "%s: %d replies, want %d: %q", desc, len(rs), want, w.wire)
+	}
+	f1, f2 := rs[want-3], rs[want-2]
+	ra, rb := c13Addr('a'), c13Addr('b')
+	t1, t2 := strings.Join(f1.Text, " "), strings.Join(f2.Text, " ")
+	if !strings.HasPrefix(t1, "<"+ra+">") || !strings.HasPrefix(t2, "<"+rb+">") {
+		return h.F("c13-not-attributed", "%s: the final replies of the second transfer do not name its recipients in order: %s | %s", desc, f1.String(), f2.String())
+	}
+	if c.Plain {
+		if f1.Code != 250 || f2.Code != 250 {
+			return h.F("c13-abort-wrong-status", "%s: the backend accepted the second message; its recipients were answered %s | %s", desc, f1.String(), f2.String())
+		}
+	} else if f1.Code != 250 || f2.Code != 550 || !strings.Contains(t2, "second-b") {
+		return h.F("c13-abort-wrong-status", "%s: the second transfer's statuses are 250 for a and 550 second-b for b; the replies are %s | %s", desc, f1.String(), f2.String())
+	}
+	if rs[want-1].Code != 250 {
+		return h.F("c13-out-of-step", "%s: the NOOP behind the transfer was answered %s", desc, rs[want-1].String())
+	}
+	return nil
+}
+
+func evalC13Abort(c C13AbortCase) *h.Finding {
+	_, f, leak := h.ReplaySchedule(func() h.World { return &c13AbortWorld{c: c} }, c.Schedule, nil)
+	if f == nil && leak != "" {
+		f = h.F("c13-deadlock", "%+v: goroutines blocked forever: %.300s", c, leak)
+	}
+	return f
+}
+
+func init() { h.RegisterReplayer("c13-abort", evalC13Abort) }
+
+func c13AbortFamily(run *h.Run, bound int) {
+	for _, abort := range []string{"RSET", "LHLO c2.example"} {
+		for _, variant := range []int{0, 1, 2} {
+			c := C13AbortCase{Abort: abort, Plain: variant == 1, Panics: variant == 2}
+			st := h.Explore(func() h.World { return &c13AbortWorld{c: c} }, h.ExploreOpts{Bound: bound, Expired: run.Expired}, func(x *h.Exec, f *h.Finding, leak string) {
+				run.Eval(true)
+				run.Trace(1)
+				if f == nil && leak != "" {
+					f = h.F("c13-deadlock", "%+v schedule=%v: goroutines blocked forever: %.300s", c, x.Schedule, leak)
+				}
+				if f != nil {
+					cc := c
+					cc.Schedule = append([]string(nil), x.Schedule...)
+					run.Violate("c13-abort", cc, f, func() *h.Finding { return evalC13Abort(cc) })
+					run.Outcome("violation:" + f.Sig)
+				}
+			})
+			run.State(1)
+			run.Transition(st.ChoicePts)
+			run.Counter("abort_then_transfer_executions", int64(st.Executions))
+		}
+	}
+	run.Outcome("abort-then-transfer-ok")
 }
